@@ -88,9 +88,10 @@ class Gen(object):
     an earlier positive literal (range restriction), so grounding over {a, b} is finite and safe."""
 
     def __init__(self, rng, negation=True, recursion=True, ads=True, evidence=True, neg_cycles=False,
-                 max_choices=10):
+                 max_choices=10, max_body=2):
         self.rng, self.negation, self.recursion, self.ads = rng, negation, recursion, ads
         self.evidence, self.neg_cycles, self.max_choices = evidence, neg_cycles, max_choices
+        self.max_body = max_body
 
     def pick_prob(self):
         return self.rng.choice(PROBS)
@@ -144,7 +145,7 @@ class Gen(object):
                 if r.random() < 0.7:
                     body.append((True, ("d", ("X",))))
                     bound.add("X")
-            nl = r.randint(1, 2)
+            nl = r.randint(1, 2) if self.max_body <= 2 else r.randint(1, self.max_body)
             for _ in range(nl):
                 cands = list(prob_atoms)
                 if self.neg_cycles:
